@@ -59,6 +59,9 @@ def _val(o, depth):
         return ["dict"] + [[str(_val(k, depth + 1)), _val(v, depth + 1)] for k, v in list(o.items())[:50]]
     if isinstance(o, (type, types.FunctionType, types.ModuleType)):
         return _desc(o)
+    if type(o).__module__ == "typing" or isinstance(o, (types.GenericAlias, types.UnionType)):
+        # type aliases are public data too: what they are made of, argument order included (typing.get_args)
+        return "typing:" + repr(o)[:300]
     return type(o).__name__
 def _desc(o):
     if isinstance(o, types.ModuleType):
